@@ -28,12 +28,12 @@ P = {
  "C14": ("Path::step = strict DFS successor, false iff exhausted (+ Verus lemma: strict successor => no repeat, terminates)", "§5 C14"),
  "C15": ("preemption counter definition; backtrack never creates an alternative exceeding the bound", "§5 C15"),
  "C16": ("Execution::step resets every piece of per-iteration state; state reachable only through the scoped TLS", "§5 C16"),
- "C17": ("per-thread local map / per-execution static map contracts, init-once, AccessError after drop", "§5 C17"),
  "C18": ("yield de-prioritisation / re-activation in schedule; yield rule never prunes an mo-maximal store; branch-limit panic", "§5 C18"),
  "C19": ("exploring/skipping flag machine; step/backtrack honour it; max_branches / max_threads panics", "§5 C19"),
 }
 NA = {
  "C06": "failure propagation is about Rust unwinding through coroutine stacks, drop order while panicking and process abort: Kani compiles with panic=abort and has no model of unwinding/catch_unwind (it crashes the compiler), Verus has no panics; no contract within reach can express it (DESIGN.md §5 C06)",
+ "C17": "both mechanisms are HashMaps (Thread.locals, lazy_static::Set.statics): Kani cannot execute hashbrown (a single concrete insert/lookup does not terminate in 10 minutes; stubs for HashSet/HashMap methods are rejected), so no contract on local/local_init/get_static/init_static can be discharged; only the Option-level new/drop/reset protocol is proved (under C16). Downgraded as announced in DESIGN.md §9, details §11.2",
  "C20": "block_on builds a Waker from raw Arc pointers resolved through HashMap<*const (),_> (symbolic-pointer hashing intractable for CBMC; raw vtable calls outside Verus) and the property is a multi-thread wake protocol; its mechanism functions rt::Notify/rt::Mutex are under contract via C07/C08 (DESIGN.md §5 C20)",
 }
 
